@@ -19,7 +19,9 @@
 //               resolve:<I>:<M>:<dir>        Importer::resolveImports(model, dir)   (importer slot name starting with 'j': non-strict)
 //               flatten:<I>:<M>:<F>          Importer::flattenModel -> model slot F
 //               removeall:<I>                Importer::removeAllModels
-//               annot:<N>:<M>:<ids|assign>   Annotator::setModel + idCount / assignAllIds (the latter edits the model: a legitimate mutator)
+//               annot:<N>:<M>:<ids|assign>   Annotator::setModel + ids()/duplicateIds()/itemCount, or assignAllIds (the latter edits the
+//                                            model: a legitimate mutator; the dump of the model afterwards is part of the result)
+//               extvar:<A>:<M>               Analyser::addExternalVariable(first variable of M): documented state of the analyser
 //               clone:<M>:<M2>   equals:<M>:<M2>   dump:<M>   release:<M>
 //               touch                        a bare XmlNode::convertToString (internal)
 //               set:<0|1>                    the application calls xmlKeepBlanksDefault itself
@@ -27,7 +29,8 @@
 //     output: one line per case; per step  <name>{k=v ...}  with always g=<flag after the step>
 //               H  = hash of dumpModel(m, unsorted)       Hn = same with every math / test value / reset value string
 //                    whitespace-normalised (space after '>' and before '<' removed)      (null when there is no model)
-//               I  = dumpIssues of the service            U  = 1 iff the model given to the call (content AND object identities) is unchanged
+//               I  = dumpIssues of the service, ID = hash of its sorted issue descriptions, LV = its by-level view (counts and error(i)/warning(i)/message(i) enumerations)
+//                         U  = 1 iff the model given to the call (content AND object identities) is unchanged
 //               UL = 1 iff every model reachable through import sources + every library model is unchanged
 //               P  = 1 iff every AnalyserModel handed out earlier by this analyser still dumps the same
 //             forkrun.hpp tokens (CRASH/THROW/TIMEOUT) replace the line when the whole case dies.
@@ -125,20 +128,35 @@ static std::string normWs(const std::string &w)
     return b;
 }
 
+static std::string rewriteStringsInDump(const std::string &d, const std::vector<std::string> &keys,
+                                        const std::function<std::string(const std::string &)> &fn);
+
 static std::string normaliseMathInDump(const std::string &d)
 {
-    static const char *keys[] = {"(math \"", "(testvalue \"", "(resetvalue \""};
+    return rewriteStringsInDump(d, {"(math \"", "(testvalue \"", "(resetvalue \""}, normWs);
+}
+
+// the dump with every id (entity, encapsulation, unit, test / reset value, mapping) replaced by "?"
+static std::string maskIdsInDump(const std::string &d)
+{
+    return rewriteStringsInDump(d, {"(id \"", "(encid \"", "(testvalueid \"", "(resetvalueid \"", "(mapid \""},
+                                [](const std::string &) { return std::string("?"); });
+}
+
+static std::string rewriteStringsInDump(const std::string &d, const std::vector<std::string> &keys,
+                                        const std::function<std::string(const std::string &)> &fn)
+{
     std::string o;
     size_t i = 0;
     while (i < d.size()) {
         bool hit = false;
-        for (const char *k : keys) {
-            size_t n = strlen(k);
+        for (const auto &k : keys) {
+            size_t n = k.size();
             if (d.compare(i, n, k) == 0) {
                 o.append(d, i, n - 1);
                 size_t j = i + n - 1;
                 std::string w = undq(d, j);
-                o += dq(normWs(w));
+                o += dq(fn(w));
                 i = j;
                 hit = true;
                 break;
@@ -318,6 +336,58 @@ struct World
     std::vector<std::shared_ptr<Interp>> interps; // keep every scripted world alive: an ImportSource holds its model weakly
 };
 
+// the issues of a service as its caller sees them: dumpIssues (multiset over issue(i)) plus the by-level view
+// LV=E<errorCount>[rule:type,...]W<warningCount>[...]M<messageCount>[...]x<levels counted over issue(i)>
+// (the lists enumerate error(i) / warning(i) / message(i) for i < count; "null" when the accessor returns nullptr)
+static std::string issuesView(const LoggerPtr &l)
+{
+    if (l == nullptr) {
+        return "I={null} LV=-";
+    }
+    auto item = [](const IssuePtr &is) {
+        if (is == nullptr) {
+            return std::string("null");
+        }
+        auto it = is->item();
+        return issueLevelLetter(is->level()) + std::to_string(int(is->referenceRule())) + ":" + std::to_string(it != nullptr ? int(it->type()) : -1);
+    };
+    std::string lv = "E" + std::to_string(l->errorCount()) + "[";
+    for (size_t i = 0; i < l->errorCount() && i < 200; ++i) {
+        lv += (i ? "," : "") + item(l->error(i));
+    }
+    lv += "]W" + std::to_string(l->warningCount()) + "[";
+    for (size_t i = 0; i < l->warningCount() && i < 200; ++i) {
+        lv += (i ? "," : "") + item(l->warning(i));
+    }
+    lv += "]M" + std::to_string(l->messageCount()) + "[";
+    for (size_t i = 0; i < l->messageCount() && i < 200; ++i) {
+        lv += (i ? "," : "") + item(l->message(i));
+    }
+    size_t e = 0, wn = 0, m = 0;
+    for (size_t i = 0; i < l->issueCount(); ++i) {
+        auto is = l->issue(i);
+        if (is == nullptr) {
+            continue;
+        }
+        e += is->level() == Issue::Level::ERROR;
+        wn += is->level() == Issue::Level::WARNING;
+        m += is->level() == Issue::Level::MESSAGE;
+    }
+    lv += "]x" + std::to_string(e) + "," + std::to_string(wn) + "," + std::to_string(m);
+    // the texts too (sorted, hashed): two runs of the same call by the same build must word their issues identically
+    std::vector<std::string> texts;
+    for (size_t i = 0; i < l->issueCount(); ++i) {
+        auto is = l->issue(i);
+        texts.push_back(is != nullptr ? is->description() : std::string("null"));
+    }
+    std::sort(texts.begin(), texts.end());
+    std::string all;
+    for (const auto &t : texts) {
+        all += t + "\n";
+    }
+    return "I=" + dumpIssues(l) + " LV=" + lv + " ID=" + h64(all);
+}
+
 static size_t countRule(const LoggerPtr &l, Issue::ReferenceRule r)
 {
     size_t n = 0;
@@ -428,7 +498,7 @@ static std::string runCase(const std::string &line)
             }
             auto m = p->parseModel(gTable[arg(2)].second);
             w.models[arg(3)] = m;
-            r = modelHashes(m) + " I=" + dumpIssues(p)
+            r = modelHashes(m) + " " + issuesView(p)
                 + " xc=" + std::to_string(countRule(p, Issue::ReferenceRule::XML_UNEXPECTED_CHARACTER))
                 + " xe=" + std::to_string(countRule(p, Issue::ReferenceRule::XML_UNEXPECTED_ELEMENT))
                 + " ec=" + std::to_string(countRule(p, Issue::ReferenceRule::ENCAPSULATION_CHILD))
@@ -472,7 +542,7 @@ static std::string runCase(const std::string &line)
             auto m = w.models[arg(2)];
             Snap before = snap(m);
             std::string text = p->printModel(m, has("auto"));
-            r = "T=" + h64(text) + " I=" + dumpIssues(p) + " U=" + std::to_string(before == snap(m));
+            r = "T=" + h64(text) + " " + issuesView(p) + " U=" + std::to_string(before == snap(m));
             if (has("t") || gVerbose) {
                 r += " X=" + hexencode(text);
             }
@@ -484,7 +554,7 @@ static std::string runCase(const std::string &line)
             auto m = w.models[arg(2)];
             Snap before = snap(m);
             v->validateModel(m);
-            r = "I=" + dumpIssues(v) + " U=" + std::to_string(before == snap(m))
+            r = issuesView(v) + " U=" + std::to_string(before == snap(m))
                 + " ci=" + std::to_string(countRule(v, Issue::ReferenceRule::MATH_CI_VARIABLE_REFERENCE))
                 + " cn=" + std::to_string(countRule(v, Issue::ReferenceRule::MATH_CN_FORMAT));
         } else if (op == "analyse") {
@@ -503,11 +573,31 @@ static std::string runCase(const std::string &line)
             }
             std::string d = dumpAnalyserModel(a->model());
             w.handedOut[arg(1)].emplace_back(a->model(), d);
-            r = "I=" + dumpIssues(a) + " U=" + std::to_string(before == snap(m)) + " A=" + h64(d) + " P=" + std::to_string(prevOk)
+            r = issuesView(a) + " U=" + std::to_string(before == snap(m)) + " A=" + h64(d) + " P=" + std::to_string(prevOk)
                 + " ty=" + (a->model() != nullptr ? AnalyserModel::typeAsString(a->model()->type()) : std::string("null"));
             if (gVerbose) {
                 r += " AD=" + hexencode(d);
             }
+        } else if (op == "extvar") {
+            // Analyser::addExternalVariable(first variable of the first component that has one): documented state of the analyser
+            auto &a = w.analysers[arg(1)];
+            if (a == nullptr) {
+                a = Analyser::create();
+            }
+            auto m = w.models[arg(2)];
+            VariablePtr v;
+            std::function<void(const ComponentPtr &)> find = [&](const ComponentPtr &c) {
+                if (v == nullptr && c->variableCount() > 0) {
+                    v = c->variable(0);
+                }
+                for (size_t i = 0; v == nullptr && i < c->componentCount(); ++i) {
+                    find(c->component(i));
+                }
+            };
+            for (size_t i = 0; m != nullptr && v == nullptr && i < m->componentCount(); ++i) {
+                find(m->component(i));
+            }
+            r = "ok=" + std::to_string(v != nullptr ? a->addExternalVariable(AnalyserExternalVariable::create(v)) : false);
         } else if (op == "generate") {
             auto &g = w.generators[arg(1)];
             if (g == nullptr) {
@@ -544,7 +634,7 @@ static std::string runCase(const std::string &line)
                 libn += base + "=" + h64(normaliseMathInDump(d)) + ";";
                 keys += (i ? "," : "") + base;
             }
-            r = "R=" + std::to_string(ok) + " I=" + dumpIssues(im) + " L=" + std::to_string(im->libraryCount()) + " L0=" + std::to_string(lib0)
+            r = "R=" + std::to_string(ok) + " " + issuesView(im) + " L=" + std::to_string(im->libraryCount()) + " L0=" + std::to_string(lib0)
                 + " LH=" + h64(lib) + " LHn=" + h64(libn) + " LK=" + keys
                 + " U=" + std::to_string(maskHasModel(before.dump) == maskHasModel(after.dump) && before.ident == after.ident)
                 + " U0=" + std::to_string(before == after);
@@ -580,7 +670,7 @@ static std::string runCase(const std::string &line)
             w.models[arg(3)] = flat;
             std::string mh = modelHashes(flat);
             mh.replace(mh.find(" Hn="), 4, " Fn=");
-            r = "F" + mh.substr(1) + " I=" + dumpIssues(im) + " U=" + std::to_string(before == snap(m)) + " UL=" + std::to_string(ul)
+            r = "F" + mh.substr(1) + " " + issuesView(im) + " U=" + std::to_string(before == snap(m)) + " UL=" + std::to_string(ul)
                 + " nl=" + std::to_string(others.size());
         } else if (op == "removeall") {
             auto &im = w.importers[arg(1)];
@@ -595,12 +685,20 @@ static std::string runCase(const std::string &line)
             auto m = w.models[arg(2)];
             an->setModel(m);
             if (arg(3) == "assign") {
-                r = "ok=" + std::to_string(an->assignAllIds());
+                // a legitimate mutator of the model: the ids it assigns are part of the result
+                bool ok = an->assignAllIds();
+                r = "ok=" + std::to_string(ok) + " " + modelHashes(m)
+                    + " Hi=" + (m != nullptr ? h64(maskIdsInDump(dumpModel(m, false, false))) : std::string("null"));
             } else {
                 Snap before = snap(m);
-                r = "ids=" + std::to_string(an->itemCount("nosuchid")) + " U=" + std::to_string(before == snap(m));
+                std::string ids;
+                for (const auto &x : an->ids()) {
+                    ids += x + ",";
+                }
+                r = "ids=" + h64(ids) + " dup=" + std::to_string(an->duplicateIds().size()) + " n=" + std::to_string(an->itemCount("nosuchid"))
+                    + " U=" + std::to_string(before == snap(m));
             }
-            r += " I=" + dumpIssues(an);
+            r += " " + issuesView(an);
         } else if (op == "clone") {
             auto m = w.models[arg(1)];
             w.models[arg(2)] = m != nullptr ? m->clone() : nullptr;
